@@ -127,6 +127,22 @@ CLAIMS["C05"] = dict(
     design_ref="DESIGN.md §3 C05",
 )
 
+CLAIMS["C04"] = dict(
+    technique="path-condition dominance on symbolically evaluated cast functions; who-may-call lint on resolved callees; compiler-decided layout witnesses (const asserts); forwarding lint",
+    category="other",
+    text=("For every function of cast::array / cast::uint and every non-diverging path: each type-changing pointer cast or transmute_copy between "
+          "a colour and its Array/Uint (or components) is dominated by the size_of equality of exactly those two types and, unless it is a "
+          "by-value transmute_copy, the align_of equality; len/capacity arguments of from_raw_parts / Vec::from_raw_parts are the source's "
+          "len()/capacity() scaled by ×LENGTH, ÷LENGTH (dominated by the `% LENGTH == 0` checks, length before capacity) or 1 as the element "
+          "types dictate; error paths hand back the unchanged input. No cast function or in-place map reaches an allocating, reallocating or "
+          "copying API (Vec::new, into_boxed_slice, into_vec, collect, clone ...), so address, length and capacity are those of the input; "
+          "map_*_in_place read and write the same place once inside ManuallyDrop. A generated witness crate lets rustc decide ~930 const "
+          "assertions: size, alignment and offset_of every field in declaration order (alpha last) for all 26 ArrayCast structs x 5 "
+          "component types, Alpha, PreAlpha, Packed. All 138 cast-trait methods forward to the function of the same direction, ownership "
+          "and container shape. Does not decide absence of UB under every input."),
+    design_ref="DESIGN.md §3 C04",
+)
+
 NOT_YET = "check under construction (see DESIGN.md §7 build order); will be claimed when its rule is armed"
 NA = {}
 
